@@ -16,7 +16,7 @@ REQUIRED_THEOREMS = [
     "Cv.C06.loopBody_perm", "Cv.C06.fitLoop_perm",
 ]
 RULE = ("six families x designs n 20..120 (quick) / 20..500 (thorough), p 1..6 with standardised random, polynomial and "
-        "indicator columns x {no weights, weights} x {no offset, offset} x alpha in {0, 0.1, 1, 10} x tolerance "
+        "indicator columns x {no weights, random weights, constant c in {2,3,.5,.25,7,10}, piecewise constant, all-equal-but-one} x {no offset, offset} x alpha in {0, 0.1, 1, 10} x tolerance "
         "1e-5..1e-14 x max_iter in {1..200}, responses simulated from the model with |beta| <= 1.5; every request "
         "followed (with probability 1/3) by the same problem with permuted rows; plus panic classes; "
         "non-trivial = distinct (family, p, weights?, offset?, alpha, tolerance decade, status)")
@@ -190,6 +190,25 @@ def problem(rng, fam, n, p, has_w, has_off):
     return x, y, w, off, kinds
 
 
+CONST_WEIGHTS = [2.0, 3.0, 0.5, 0.25, 7.0, 10.0]
+WEIGHT_KINDS = ["constant", "piecewise", "all-but-one"]
+
+
+def structured_weights(rng, n, kind, c):
+    """constant c; two or three distinct values in blocks / interleaved; all equal to c except one entry"""
+    if kind == "constant":
+        return [c] * n
+    if kind == "piecewise":
+        vals = [c] + [v for v in rng.shuffle(list(CONST_WEIGHTS + [1.0])) if v != c][:rng.randint(1, 2)]
+        if rng.chance(0.5):
+            cuts = sorted(rng.randint(1, n - 1) for _ in range(len(vals) - 1))
+            return [vals[sum(1 for ct in cuts if i >= ct)] for i in range(n)]
+        return [vals[i % len(vals)] for i in range(n)]
+    w = [c] * n
+    w[rng.choice([0, n - 1, rng.randint(0, n - 1)])] = rng.choice([v for v in CONST_WEIGHTS + [1.0] if v != c])
+    return w
+
+
 def permuted(rng, n, p, x, y, w, off):
     perm = rng.shuffle(list(range(n)))
     xp = [x[i * p + j] for i in perm for j in range(p)]
@@ -214,6 +233,16 @@ def corpus():
     L.append(mkline("bernoulli", 20, 2, xd, passed, None, None, 0.0, 1e-5, 50))
     L.append(mkline("bernoulli", 20, 2, xd, passed, None, None, 1.0, 1e-10, 50))
     L.append(mkline("bernoulli", 20, 2, xd, passed, None, None, 0.0, 1e-10, 3))   # Err: not converged
+    # constant weights c != 1 (seeded change C06d: "uniform weights only rescale the likelihood" drops them): the Fisher
+    # information, n = round(sum w) and the ridge balance all depend on c
+    cnt = [0.0, 1.0, 0.0, 2.0, 1.0, 3.0, 2.0, 5.0, 4.0, 6.0, 9.0, 8.0]
+    xc = [v for t in [-1.5, -1.2, -0.9, -0.6, -0.3, 0.0, 0.3, 0.6, 0.9, 1.2, 1.5, 1.8] for v in (1.0, t)]
+    for c in (3.0, 0.25):
+        for a in (0.0, 1.0):
+            L.append(mkline("poisson", 12, 2, xc, cnt, [c] * 12, None, a, 1e-10, 200))
+            L.append(mkline("gaussian", 12, 2, xc, [0.3 * v + 0.1 for v in cnt], [c] * 12, None, a, 1e-10, 200))
+    L.append(mkline("bernoulli", 20, 2, xd, passed, [2.0] * 20, None, 0.1, 1e-10, 200))
+    L.append(mkline("exponential", 12, 2, xc, [v + 0.5 for v in cnt], [7.0] * 12, None, 0.0, 1e-10, 200))
     # panic classes
     L.append(mkline("gaussian", 6, 2, [2.0] + x[1:], y, None, None, 0.0, 1e-8, 50))          # not a design matrix
     L.append(mkline("gaussian", 6, 2, x, y, [1.0, 2.0], None, 0.0, 1e-8, 50))                 # wrong number of weights
@@ -253,6 +282,24 @@ def gen(rng, tier):
             lines.append("# perm " + " ".join(map(str, perm)))
             lines.append(mkline(fam, n, p, xp, yp, wp, op, alpha, tol, maxiter))
             cover["perm_pairs"] += 1
+    # ---- structured weights: constant c != 1 (dyadic and non-dyadic), piecewise constant, all equal except one.
+    #      Full grid family x alpha x offset for each structure; tolerances / budgets chosen so that the fits succeed and
+    #      the oracle (weighted information, weighted ridge score, n = round(sum w)) decides them on the implementation alone.
+    cover["weight_structure"] = {}
+    reps = 1 if tier == "quick" else 4
+    k = 0
+    for _ in range(reps):
+        for kind in WEIGHT_KINDS:
+            for fam in FAMILIES:
+                for alpha in ALPHAS:
+                    for has_off in (False, True):
+                        pp = rng.randint(1, 3) if kind == "constant" else rng.randint(1, 4)
+                        n = rng.randint(max(20, 15 * pp), 60)
+                        x, y, _, off, kinds = problem(rng, fam, n, pp, False, has_off)
+                        w = structured_weights(rng, n, kind, CONST_WEIGHTS[k % len(CONST_WEIGHTS)])
+                        k += 1
+                        lines.append(mkline(fam, n, pp, x, y, w, off, alpha, rng.choice([1e-8, 1e-10, 1e-12]), 200))
+                        cover["weight_structure"][kind] = cover["weight_structure"].get(kind, 0) + 1
     return lines, cover
 
 
@@ -589,3 +636,9 @@ REQUIRED_THEOREMS = REQUIRED_THEOREMS + ['Cv.C01Solve.glm_solver_exact', 'Cv.C01
 _np = list(NOT_PROVED)
 _np = [('the solver hypothesis is discharged for regular (non-singular) information matrices: Props/C01SolveApps instantiates the fixed-point and Gaussian normal-equation theorems with the model of `solve` itself; on a singular information matrix the model (like a field) divides by a zero pivot and the theorems do not apply' if 'correctness of the linear solver' in str(x) else x) for x in _np]
 NOT_PROVED = [x for x in _np if x is not None]
+
+# --- deep theorems (C06Dev)
+PROOF_MODULES = PROOF_MODULES + ['Compute.Props.C06Dev']
+REQUIRED_THEOREMS = REQUIRED_THEOREMS + ['Cv.C06D.deviance_textbook', 'Cv.C06D.poisson_deviance', 'Cv.C06D.bernoulli_deviance', 'Cv.C06D.gamma_deviance', 'Cv.C06D.gamma_deviance_split', 'Cv.C06D.unitDev_eq_zero_iff', 'Cv.C06D.deviance_nonneg', 'Cv.C06D.bernoulli_fractional_gap']
+NOT_PROVED = [x for x in NOT_PROVED if not any(k in str(x) for k in ('textbook closed forms',))]
+NOT_PROVED = NOT_PROVED + ["for fractional Bernoulli responses 0 < y < 1 (outside the property's quantifier: responses are 0/1) the source omits the saturated-model term of the textbook binomial deviance (bernoulli_fractional_gap)"]
